@@ -221,6 +221,12 @@ pub fn gen_line(t: &mut Tape, continuation: bool, allow_empty: bool, unicode: bo
     if allow_empty && t.chance(1, 8) {
         return String::new();
     }
+    // now and then a line that is itself a field name, or looks like a whole field (code that
+    // searches for a name must look at the key, not at the text)
+    if t.chance(1, 25) {
+        let n = t.pick(NAME_POOL);
+        return if t.flag() { n.to_string() } else { format!("{}: a", n) };
+    }
     // mostly short; now and then a line far beyond 79 columns (wrapping limits, fixed buffers)
     let n = if t.chance(1, 30) { t.range(60, 300) } else { t.range(1, 10) };
     let mut s = String::new();
